@@ -37,6 +37,8 @@ def _wrap(vtype, p):
     if vtype == 'symbol':
         return sympy.Symbol(f'v{abs(p)}') * (1 if p >= 0 else -1) if p else sympy.Integer(0)
     if vtype == 'str':
+        if p and abs(p) % 3 != 1:          # a COMPOUND expression (a sum at top level): negating it needs parentheses
+            return f'1+v{p}-1' if p > 0 else f'1-v{-p}-1'
         return (f'v{p}' if p > 0 else f'-v{-p}') if p else '0'
     if vtype == 'array':
         return np.array([p, 2 * p])
